@@ -153,6 +153,54 @@ func TestSchedules(t *testing.T) {
 		}
 	}
 
+	// A callback that panics (the panic is recovered by its caller) must not leave the future
+	// unusable: calls made afterwards still return and their callbacks run.  Each scenario has
+	// exactly one panicking callback, so no other callback is cut off by the panic.
+	for i, completeFirst := range []bool{true, false} {
+		tw.Emit(tracefmt.Rec{"ev": "reset", "futs": []string{"f"}, "n": i, "scenario": "panicking-callback"})
+		f := verifexport.NewFuture[int]()
+		done := make(chan struct{})
+		go func() {
+			defer close(done)
+			guarded := func(fn func()) {
+				defer func() { _ = recover() }()
+				fn()
+			}
+			boom := func(v int) {
+				tw.Emit(tracefmt.Rec{"ev": "ran", "cb": "p", "fut": "f", "v": v})
+				panic("callback failed")
+			}
+			if completeFirst {
+				tw.Emit(tracefmt.Rec{"ev": "call", "thread": "t1", "op": "complete", "fut": "f", "v": 1})
+				f.Complete(1)
+				tw.Emit(tracefmt.Rec{"ev": "ret", "thread": "t1"})
+				tw.Emit(tracefmt.Rec{"ev": "call", "thread": "t2", "op": "accept", "fut": "f", "cb": "p"})
+				guarded(func() { f.ThenAccept(boom) })
+				tw.Emit(tracefmt.Rec{"ev": "ret", "thread": "t2"})
+			} else {
+				tw.Emit(tracefmt.Rec{"ev": "call", "thread": "t2", "op": "accept", "fut": "f", "cb": "p"})
+				f.ThenAccept(boom)
+				tw.Emit(tracefmt.Rec{"ev": "ret", "thread": "t2"})
+				tw.Emit(tracefmt.Rec{"ev": "call", "thread": "t1", "op": "complete", "fut": "f", "v": 1})
+				guarded(func() { f.Complete(1) })
+				tw.Emit(tracefmt.Rec{"ev": "ret", "thread": "t1"})
+			}
+			tw.Emit(tracefmt.Rec{"ev": "call", "thread": "t3", "op": "accept", "fut": "f", "cb": "q"})
+			f.ThenAccept(func(v int) { tw.Emit(tracefmt.Rec{"ev": "ran", "cb": "q", "fut": "f", "v": v}) })
+			tw.Emit(tracefmt.Rec{"ev": "ret", "thread": "t3"})
+			tw.Emit(tracefmt.Rec{"ev": "call", "thread": "t4", "op": "complete", "fut": "f", "v": 2})
+			f.Complete(2)
+			tw.Emit(tracefmt.Rec{"ev": "ret", "thread": "t4"})
+		}()
+		select {
+		case <-done:
+			tw.Emit(tracefmt.Rec{"ev": "end"})
+		case <-time.After(5 * time.Second):
+			st.Unfinished++
+			tw.Emit(tracefmt.Rec{"ev": "hung", "n": i})
+		}
+	}
+
 	// Free-running stress without gates (meaningful under -race).
 	nStress := tracefmt.EnvInt("VERIF_STRESS", 200)
 	for i := 0; i < nStress; i++ {
